@@ -431,6 +431,43 @@ func c18(c *Ctx) {
 		}
 		okKill = okRet && noGC && isDoneCase
 	}
+	// every death and every schedule request makes the next tick run the restart scan: after
+	// processDied / processSchedule the "clean" flag is cleared on every path (an exit that leaves
+	// the scan clean — say the expected return of a DONE service — can be the very event that makes
+	// its parent's subtree restartable, and nothing else would trigger the scan)
+	for _, callee := range []*ssa.Function{died, must(p.Method(pkgSup, "supervisor", "processSchedule"), "processSchedule")} {
+		for _, s := range callsTo(p, callee) {
+			if s.Fn != proc {
+				continue
+			}
+			okDirty, wit := facts.MustPassAfter(s.Instr, func(i ssa.Instruction) bool {
+				// the markDirty closure call, or a direct `clean = false`
+				if cl, ok := i.(*ssa.Call); ok {
+					if mc, ok := cl.Call.Value.(*ssa.MakeClosure); ok {
+						dirty := false
+						eachInstr(mc.Fn.(*ssa.Function), func(j ssa.Instruction) {
+							if st, ok := j.(*ssa.Store); ok && isFalseConst(st.Val) {
+								dirty = true
+							}
+						})
+						return dirty
+					}
+				}
+				if st, ok := i.(*ssa.Store); ok && isFalseConst(st.Val) && strings.Contains(facts.Term(st.Addr), "clean") {
+					return true
+				}
+				// the next blocking select of the loop reached without it ends the search
+				return false
+			})
+			_ = wit
+			// MustPassAfter treats "reaches a return" as failure; the processor loop never returns on
+			// this path, so additionally require that the loop header is not reached first
+			if okDirty {
+				okDirty = c18dirtyBeforeNextSelect(s.Instr)
+			}
+			R.Check("C18.restart-gate", R.Key("C18.restart-gate", shortFn(proc), "dirty-after:"+callee.Name()), c.sitePos(p, s), "after "+callee.Name()+" the restart scan is always marked dirty", okDirty, "a path returns to the processor's select without marking the scan dirty: the exit that makes a subtree restartable may never be acted on")
+		}
+	}
 	R.Check("C18.kill", "C18.kill/processor", c.rel(p.Pos(proc.Pos())), "on cancellation of the supervisor's context the processor cancels all nodes and returns without running the restart scan", okKill, "shape changed")
 	// processKill cancels every node: collects ctxC of each visited node and calls each
 	okAll := false
@@ -683,4 +720,61 @@ func c18mapGate(c *Ctx, fn *ssa.Function, name string, states []string) {
 		R.Pass("C18.restart-gate", R.Key("C18.restart-gate", shortFn(fn), "mapupdate:"+name), c.rel(p.Pos(mu.Pos())), "restart is wanted only for DEAD or CANCELED nodes", fmt.Sprintf("guard edges %v", ds))
 	})
 	R.Floor("C18.restart-gate."+name, n, 1)
+}
+
+// c18dirtyBeforeNextSelect: from the instruction after `from`, every path to the next blocking
+// select passes a store of false (directly or inside a called closure).
+func c18dirtyBeforeNextSelect(from ssa.Instruction) bool {
+	isDirty := func(i ssa.Instruction) bool {
+		if cl, ok := i.(*ssa.Call); ok {
+			if mc, ok := cl.Call.Value.(*ssa.MakeClosure); ok {
+				d := false
+				eachInstr(mc.Fn.(*ssa.Function), func(j ssa.Instruction) {
+					if st, ok := j.(*ssa.Store); ok && isFalseConst(st.Val) {
+						d = true
+					}
+				})
+				return d
+			}
+		}
+		if st, ok := i.(*ssa.Store); ok && isFalseConst(st.Val) {
+			return true
+		}
+		return false
+	}
+	b := from.Block()
+	idx := 0
+	for k, ins := range b.Instrs {
+		if ins == from {
+			idx = k
+		}
+	}
+	seen := map[*ssa.BasicBlock]bool{}
+	var walk func(b *ssa.BasicBlock, start int) bool
+	walk = func(b *ssa.BasicBlock, start int) bool {
+		for k := start; k < len(b.Instrs); k++ {
+			if isDirty(b.Instrs[k]) {
+				return true
+			}
+			if sel, ok := b.Instrs[k].(*ssa.Select); ok && sel.Blocking {
+				return false
+			}
+			if _, ok := b.Instrs[k].(*ssa.Return); ok {
+				return true // leaving the processor ends all restarts anyway
+			}
+		}
+		if seen[b] && start == 0 {
+			return true
+		}
+		if start == 0 {
+			seen[b] = true
+		}
+		for _, s := range b.Succs {
+			if !walk(s, 0) {
+				return false
+			}
+		}
+		return true
+	}
+	return walk(b, idx+1)
 }
